@@ -23,7 +23,7 @@ def canary(row, rng):
 def emit_cases(ctx):
     """Model-check MCEvolve; its invariant EmitCase prints a deterministic sample of the states as cases."""
     cfg = open(os.path.join(vlib.SPECS, "MCEvolve.cfg")).read()
-    mod = 40 if ctx.quick() else 3
+    mod = 12 if ctx.quick() else 2
     cfg = cfg.replace("EmitMod = 40", "EmitMod = %d" % mod).replace("EmitPick = 0", "EmitPick = %d" % (ctx.seed % mod))
     r = vlib.model_check(ctx, "MCEvolve", cfg, timeout=3300)
     cases, rschema = [], None
